@@ -6,7 +6,8 @@ Three parts, drawn per run:
            (almost) every suspension; the loop checks that every object reaching it is a live token of
            the running task and every token checks that it gets its own reply / its own interrupt
   sync     an operation with only synchronous, non-suspending arguments is driven by a bare
-           ``send(None)``: every awaitable / every ``__anext__`` must finish without suspending
+           ``send(None)``: every awaitable / every ``__anext__`` must finish without suspending; input size is
+           a knob (up to 20 000 items) and the outcome must be the stdlib's (no "needs a running loop" failures)
   tripwire (once per invocation, fresh subprocess) asyncio's loop entry points are replaced by
            tripwires before asyncstdlib is imported; a sample of all workloads must not trip one
 """
@@ -21,13 +22,13 @@ from ..actors import World, SYNC_FLAVOURS
 from ..loop import drive_sync
 from ..runner import Outcome, VERIF_DIR
 from ..tools import TOOLS, AGGS, TOOL_NAMES, AGG_NAMES, Gen, draw_cfg, lib
-from ..tooldiff import build_async, _objs
+from ..tooldiff import build_async, _objs, ref_tool, ref_agg
 from . import common
 from .common import COMPONENTS_BASE
 
 PID = "C17"
 LEVEL = "exploration"
-BUDGET = {"quick": 30000, "thorough": 800000}
+BUDGET = {"quick": 60000, "thorough": 1200000}
 RULE = (
     "each run is one of: (tokens, 70%) a workload of another operation class (iterator tools, aggregations, "
     "borrow, scoped_iter, tee, lru_cache, cached_property, contextmanager, ExitStack, decorators, groupby, "
@@ -45,7 +46,8 @@ ASSUMPTIONS = [
     "violations of the re-used workloads' own clauses are not attributed to C17",
 ]
 PROBES = ("tokens_mode", "sync_mode", "interrupt_absorbed", "tripwire_subprocess_ran")
-CLASSES = ("c01", "c02", "c05", "c07", "c09", "c10", "c11", "c12", "c14", "c15", "c16", "c19", "c08", "c13")
+CLASSES = ("c01", "c02", "c05", "c07", "c09", "c10", "c11", "c12", "c14", "c15", "c16", "c19", "c08", "c13", "c20",
+           "c03", "c04", "c06", "c18")
 _mods = {}
 
 
@@ -72,24 +74,48 @@ def sync_part(st, ctx, out):
         name = TOOL_NAMES[ch.draw(len(TOOL_NAMES))]
         what = name
         spec = TOOLS[name].gen(g)
+        big = enlarge(ch, g, spec)
         world = World()
+        world.log = _NullLog()
         srcs, fns = build_async(spec, world)
         it = TOOLS[name].a(L, spec, _objs(srcs), _objs(fns))
-        for _ in range(12):
+        end = None
+        for _ in range(12 if not big else big + 5):
             susp, val, err = drive_sync(it.__anext__())
-            obs.append(("__anext__", susp))
             if susp or err is not None:
+                obs.append(("__anext__", susp))
+                end = err
                 break
+        else:
+            obs.append(("__anext__", False))
         s2, _, _ = drive_sync(it.aclose())
         obs.append(("aclose", s2))
+        if big and not TOOLS[name].infinite:
+            what = "%s[%d items]" % (name, big)
+            ref = ref_tool(spec, big + 5)
+            etype = type(end).__name__ if end is not None and not isinstance(end, StopAsyncIteration) else None
+            rtype = type(ref.exc).__name__ if ref.end == "exc" else None
+            if etype != rtype:
+                out.violate("C17.fails_when_driven_without_a_loop", (name, str(etype)),
+                            {"operation": what, "async_error": repr(end), "stdlib": repr(ref.exc)})
     elif sel < 8:
         name = AGG_NAMES[ch.draw(len(AGG_NAMES))]
         what = name
         spec = AGGS[name].gen(g)
+        big = enlarge(ch, g, spec)
         world = World()
+        world.log = _NullLog()
         srcs, fns = build_async(spec, world)
-        susp, _, _ = drive_sync(AGGS[name].a(L, spec, _objs(srcs), _objs(fns)))
+        susp, _, err = drive_sync(AGGS[name].a(L, spec, _objs(srcs), _objs(fns)))
         obs.append(("await", susp))
+        if big:
+            what = "%s[%d items]" % (name, big)
+            ref = ref_agg(spec)
+            etype = type(err).__name__ if err is not None else None
+            rtype = type(ref.exc).__name__ if ref.end == "exc" else None
+            if etype != rtype:
+                out.violate("C17.fails_when_driven_without_a_loop", (name, str(etype)),
+                            {"operation": what, "async_error": repr(err), "stdlib": repr(ref.exc)})
     elif sel == 8:
         what = "lru_cache+cached_property"
 
@@ -182,6 +208,35 @@ def sync_part(st, ctx, out):
     if ctx.want_log:
         out.log = [what, obs]
     return out
+
+
+ENLARGEABLE = ("zip", "map", "filter", "filterfalse", "enumerate", "accumulate", "batched", "chain", "dropwhile",
+               "takewhile", "islice", "pairwise", "zip_longest", "all", "any", "min", "max", "list", "tuple", "set",
+               "sorted", "reduce", "nlargest", "nsmallest")
+
+
+class _NullLog:
+    """Event log that records nothing (large inputs)"""
+
+    def append(self, _event):
+        pass
+
+
+def enlarge(ch, g, spec):
+    """Size is a knob too: occasionally the inputs are large (thresholds, chunking, 'be nice to the loop' paths)"""
+    size = (0, 0, 0, 0, 0, 0, 600, 5000, 20000)[ch.draw(9)]
+    if not size or spec.tool not in ENLARGEABLE or not spec.srcs:
+        return 0
+    from ..actors import Item, SrcPlan
+    ks = g.cfg.keyspace
+    for plan in spec.srcs:
+        base = g.uid
+        extra = [Item(i % ks, base + i + 1) for i in range(size)]
+        g.uid += size
+        plan.items = list(plan.items) + extra
+        if plan.flavour == "tuple":
+            plan.flavour = "list"
+    return size + max(len(p.items) for p in spec.srcs) - size
 
 
 async def _await(x):
